@@ -108,7 +108,7 @@ def policies(tier):
         pass
     # ---- POMO / SymNCO: attention model variants (instance norm, no graph context; projection head wrapper)
     out.append(_entry("POMO", "tsp", lambda: AttentionModelPolicy(env_name="tsp", normalization="instance", use_graph_context=False, **kw),
-                      quick=False, ms_eval_amp=False))
+                      ms_eval_amp=False))
     out.append(_entry("POMO", "cvrp", lambda: AttentionModelPolicy(env_name="cvrp", normalization="instance", use_graph_context=False, **kw),
                       quick=False, ms_eval_amp=False))
     try:
@@ -128,7 +128,7 @@ def policies(tier):
         from rl4co.models.zoo.matnet.policy import MultiStageFFSPPolicy
         out.append(_entry("MatNetFFSP", "ffsp", lambda: MultiStageFFSPPolicy(stage_cnt=2, embed_dim=32, num_heads=2, num_encoder_layers=1,
                                                                               feedforward_hidden=64),
-                          style="ffsp", modes=("greedy", "sampling"), quick=False,
+                          style="ffsp", modes=("greedy", "sampling"),
                           gp={"num_stage": 2, "num_machine": 2, "num_job": 4, "flatten_stages": False}))
     except Exception:
         pass
@@ -138,7 +138,7 @@ def policies(tier):
         from rl4co.models.zoo.polynet.policy import PolyNetPolicy
         pm = ("greedy", "sampling", "multisample_sampling", "multistart_greedy", "multistart_sampling", POLYNET_OWN)
         out.append(_entry("PolyNet", "tsp", lambda: PolyNetPolicy(env_name="tsp", k=K, **kw), modes=pm, ms_eval=None))
-        out.append(_entry("PolyNet", "cvrp", lambda: PolyNetPolicy(env_name="cvrp", k=K, **kw), modes=pm, ms_eval=None, quick=False))
+        out.append(_entry("PolyNet", "cvrp", lambda: PolyNetPolicy(env_name="cvrp", k=K, **kw), modes=pm, ms_eval=None))
         out.append(_entry("PolyNet", "sdvrp", lambda: PolyNetPolicy(env_name="sdvrp", k=K, **kw), modes=pm, ms_eval=None, quick=False))
         out.append(_entry("PolyNet(MatNet)", "atsp", lambda: PolyNetPolicy(env_name="atsp", k=K, encoder_type="MatNet", **kw),
                           modes=pm, ms_eval=None, quick=False))
@@ -150,8 +150,7 @@ def policies(tier):
         lk = dict(embed_dim=32, num_encoder_layers=1)
         out.append(_entry("L2D", "fjsp", lambda: L2DPolicy(env_name="fjsp", **lk), gp=SCHED, modes=M5))
         out.append(_entry("L2D", "jssp", lambda: L2DPolicy(env_name="jssp", **lk), gp=SCHED, modes=M5))
-        out.append(_entry("L2D(stepwise)", "fjsp", lambda: L2DPolicy(env_name="fjsp", stepwise_encoding=True, **lk), gp=SCHED, modes=M5,
-                          quick=False))
+        out.append(_entry("L2D(stepwise)", "fjsp", lambda: L2DPolicy(env_name="fjsp", stepwise_encoding=True, **lk), gp=SCHED, modes=M5))
         out.append(_entry("L2D4PPO", "jssp", lambda: L2DPolicy4PPO(env_name="jssp", **lk), gp=SCHED, modes=M5, quick=False))
         # the public L2DAttnPolicy raises in its first decoding step on the pinned tree (the actor's pre_decoder_hook returns a
         # 1-tuple the decoder then reads as the cache): skipped while it does, recorded as soon as it runs
@@ -159,7 +158,7 @@ def policies(tier):
             out.append(_entry("L2DAttn", e, (lambda e=e: L2DAttnPolicy(env_name=e, num_heads=2, **lk)), gp=SCHED, modes=M5,
                               quick=False, optional=True))
             out.append(_entry("L2DAttn(actor in L2DDecoder)", e, (lambda e=e: _l2d_attn_composed(e)), gp=SCHED,
-                              modes=("greedy", "sampling"), quick=False))
+                              modes=("greedy", "sampling"), quick=e == "fjsp"))
     except Exception:
         pass
     # ---- MVMoE: attention model with mixture-of-experts layers on the multi-task VRP (all variants in one batch)
@@ -183,7 +182,7 @@ def policies(tier):
     # ---- MDAM (thorough tier: on the pinned tree the reported log-likelihood is the sum of raw logits)
     try:
         from rl4co.models.zoo.mdam.policy import MDAMPolicy
-        out.append(_entry("MDAM", "tsp", lambda: MDAMPolicy(env_name="tsp", **kw), style="mdam", modes=("greedy", "sampling"), quick=False))
+        out.append(_entry("MDAM", "tsp", lambda: MDAMPolicy(env_name="tsp", **kw), style="mdam", modes=("greedy", "sampling")))
         out.append(_entry("MDAM", "cvrp", lambda: MDAMPolicy(env_name="cvrp", **kw), style="mdam", modes=("greedy", "sampling"), quick=False))
     except Exception:
         pass
